@@ -95,8 +95,9 @@ def c16(tier):
     F = (False, True)
     if tier == "quick":
         tr = T(10, 120, 5, dense=(36,))
-        return [S("dn2f", "dn", 2, ops=_force_ops("dn"), forces=F, maxcopies=2, reps=3, trace=tr),
-                S("un2f", "un", 2, ops=_force_ops("un"), forces=F, maxcopies=2, reps=3, trace=tr),
+        tr70 = T(10, 120, 5, dense=(36, 70))      # beyond 64 vertices for the two classes the others build on
+        return [S("dn2f", "dn", 2, ops=_force_ops("dn"), forces=F, maxcopies=2, reps=3, trace=tr70),
+                S("un2f", "un", 2, ops=_force_ops("un"), forces=F, maxcopies=2, reps=3, trace=tr70),
                 S("dl1f", "dl", 1, ops=_force_ops("dl"), labels=(0, 1), forces=F, maxcopies=2, reps=2, trace=T(3, 100, 5)),
                 S("dl2f", "dl", 2, ops=_force_ops("dl"), labels=(0, 1), forces=F, maxcopies=2, walk=False),
                 S("ul2f", "ul", 2, ops=_force_ops("ul"), labels=(0, 1), forces=F, maxcopies=2, reps=2, trace=T(3, 100, 5)),
